@@ -25,6 +25,25 @@ AtLeast(g, X, flat, z, eps) ==
   /\ Len(flat) = BNumel(ShapeOf(g, X))
   /\ \A ea \in ExtAssts(g, X) : z[ea] <= flat[BFlat(ShapeOf(g, X), ea)][2] + eps
 
+\* No proved contraction (q >= 1: critical or slowly converging grammars).  "An error that vanishes as tol does" gives no
+\* bound at a fixed tol, so only what every method guarantees at ANY tol is demanded, and only when the certificate is at
+\* least A fixed point (then the least one is finite): all three methods approach the least fixed point from below through
+\* pre-fixed points (Kleene iterates; Newton iterates, Esparza-Kiefer-Luttenberger), so the result r satisfies
+\*   F(0) <= r,   r <= F(r),   r <= any fixed point,      up to rounding.
+HiFun(g, r) == [X \in Nts(g) |-> [ea \in ExtAssts(g, X) |-> r.res[X][BFlat(ShapeOf(g, X), ea)][2]]]
+Slack(v) == 2 + (v \div 1000)
+WeakClause(c, r, cert, k1) ==
+  LET g == c.ag IN
+  IF ~CertExact(g, cert) THEN "ok"
+  ELSE IF \E X \in Nts(g) : Len(r.res[X]) # BNumel(ShapeOf(g, X)) THEN "EveryNonterminalHasAValue"
+  ELSE LET hi == HiFun(g, r)
+           up == StepF("fxu", g, hi)
+           lowOf(X, ea) == r.res[X][BFlat(ShapeOf(g, X), ea)][1] IN
+       IF \E X \in Nts(g) : \E ea \in ExtAssts(g, X) : hi[X][ea] + Slack(k1[X][ea]) < k1[X][ea] THEN "AtLeastTheFirstKleeneIterate"
+       ELSE IF \E X \in Nts(g) : \E ea \in ExtAssts(g, X) : lowOf(X, ea) > up[X][ea] + Slack(up[X][ea]) THEN "NeverAboveItsOwnImage"
+       ELSE IF \E X \in Nts(g) : \E ea \in ExtAssts(g, X) : lowOf(X, ea) > cert[X][ea] + Slack(cert[X][ea]) THEN "NeverAboveAFixedPoint"
+       ELSE "ok"
+
 RunClause(c, r, certified, q, cert, lo, mu) ==
   IF r.method = "linear" /\ ~LinearlyRecursive(c.ag) THEN
        (IF r.out = "raise:ValueError" THEN "ok" ELSE "LinearRaisesValueErrorOnNonLinearGrammar")
@@ -34,7 +53,7 @@ RunClause(c, r, certified, q, cert, lo, mu) ==
   ELSE IF r.sr = "fx" THEN
        IF certified THEN
             (IF \E X \in Nts(c.ag) : ~Within(c.ag, X, r.res[X], cert[X], Eps(r.tolu, q)) THEN "LeastFixedPointOrWarning" ELSE "ok")
-       ELSE (IF \E X \in Nts(c.ag) : ~AtLeast(c.ag, X, r.res[X], lo[X], Eps(r.tolu, 512) + 8) THEN "NotBelowTheLowerBound" ELSE "ok")
+       ELSE WeakClause(c, r, cert, lo)
   ELSE IF ~mu[r.sr].stable THEN "ok"      \* Kleene did not stabilise within the bound: uncertified
   ELSE IF \E X \in Nts(c.ag) : ~TensorEq(c.ag, X, r.res[X], mu[r.sr].x[X]) THEN "LeastFixedPointOrWarning"
   ELSE "ok"
@@ -44,7 +63,7 @@ Verdict(c) ==
       cert == IF fx THEN CertFun(c.ag) ELSE <<>>
       q == IF fx THEN CertQ(c.ag, cert) ELSE 0
       certified == fx /\ CertExact(c.ag, cert) /\ q < FXS
-      lo == IF fx /\ ~certified THEN LowerBound(c.ag, 30) ELSE <<>>
+      lo == IF fx /\ ~certified THEN LowerBound(c.ag, 1) ELSE <<>>        \* F(0), products rounded down
       srs == { c.runs[i].sr : i \in DOMAIN c.runs } \ {"fx"}
       mu == [sr \in srs |-> Lfp(sr, c.ag, 80)]
       bad == SelectSeq(c.runs, LAMBDA r: RunClause(c, r, certified, q, cert, lo, mu) # "ok")
